@@ -843,6 +843,28 @@ pub fn run(args: &Args) -> Report {
         rep.count("sweep:hex-lengths");
     }
 
+    // g2. every kind of `\u` escape at the edges of its ranges (incl. lone and paired surrogates, NUL, the last BMP
+    //     scalar), upper and lower case, truncated, as a tag string, as content, as a filter value and bare
+    if mine(&mut caseno) {
+        let (_, e2) = crate::c01::base_events();
+        for cp in ["0000", "001f", "007f", "0080", "07ff", "0800", "d7ff", "d800", "dbff", "dc00", "dfff", "DFFF", "e000", "fffe", "ffff", "FFFF", "d83d\\ude00", "dc00\\ud800", "d800\\u0041", "12", "123", "12g4", ""] {
+            let esc = format!("\\u{cp}");
+            for s in [format!("\"{esc}\""), format!("\"a{esc}b\""), format!("\"{esc}{esc}\"")] {
+                let t = s.clone().into_bytes();
+                call(&mut rep, &w, Entry::Unescape, &t, 64);
+                let t = format!("[[\"t\",{s}],[{s}]]").into_bytes();
+                call(&mut rep, &w, Entry::TagsJson, &t, 4096);
+                let t = format!("{{\"#e\":[{s}]}}").into_bytes();
+                call(&mut rep, &w, Entry::FilterJson, &t, 4096);
+                let base = render_event(&e2, &EvRender::plain(), &mut rng).0;
+                let text = String::from_utf8_lossy(&base).replace("\"content\":\"", &format!("\"content\":{}, \"x\":\"", s));
+                let t = text.into_bytes();
+                call(&mut rep, &w, Entry::EventJson, &t, big_buf(Entry::EventJson, &t));
+            }
+        }
+        rep.count("sweep:u-escapes");
+    }
+
     // h. addresses
     for k in 0..(if thorough { 20000 } else { 2000 }) {
         if !mine(&mut caseno) {
